@@ -25,7 +25,9 @@ RULE = ('node cases: every B/IP node kind x every BVLL function (0..11) x unicas
         'deliv cases: seeded configurations of 1..8 BBMD subnets, 0..5 ordinary nodes each, 0..6 registered foreign devices, uniform or per-peer mixed entry styles, '
         'full or partial tables: the deliveries of a broadcast from up to 12 origins, implementation vs BipDeliv.broadcast (the semantics of the all-size theorem).  '
         'direct check also: layouts with a foreign device inside a BBMD subnet registered with another subnet\'s BBMD (/32 tables), and expiry-order runs '
-        '(2..4 devices on one BBMD stopping 1..4 s apart, table read + broadcast in every second, grace must not depend on other entries).  '
+        '(2..4 devices on one BBMD stopping 1..4 s apart, table read + broadcast in every second, grace must not depend on other entries), the same node broadcasting identical octets 2..3 times '
+        '(same instant / later / other traffic in between; copies counted per broadcast event), and re-registration 0.3..7 s after unregistering or a cable pull '
+        '(broadcast + Read-FDT in each following second).  '
         'non-trivial = the event produces at least one outbound frame, delivery or state change; distinct by (layer, input).')
 TRUSTED = ['models coq/theories/Bip.v (after bvllservice.py:342-1072) and IpNet.v (after vlan.py:28-282) written by hand; tie = correspondence',
            'the harness multiplexer shim (after bvllservice.UDPMultiplexer / tests/test_bvll/helpers.py FauxMultiplexer) replaces UDP sockets',
@@ -1451,6 +1453,89 @@ def scen_expiry_order(rng, stats):
     return bk.failures
 
 
+def scen_repeat(rng, layout, stats):
+    """The same node broadcasts the SAME octets two and three times: at one instant, at different instants, with and
+    without other traffic in between.  Every one of these broadcasts is a broadcast of its own: the copies are counted per
+    broadcast event (each runs to quiescence before the next starts), not per payload."""
+    bk = Book(layout)
+    T = Times(rng)
+    nodes = layout['nodes']
+    bbmds, fors = idx(layout, 'bbmd'), idx(layout, 'foreign')
+    senders = [i for i, n in enumerate(nodes) if n['kind'] != 'probe']
+    if bbmds:
+        for f in fors:
+            home = nodes[f]['home'] if 'home' in nodes[f] else rng.choice(bbmds)
+            bk.step(T.after(rng.choice([0, 500])), ('register', f, (nodes[home]['ip'], PORT), rng.choice([30, 60, 120, 300])))
+    k = 0
+    for o in rng.sample(senders, min(len(senders), 4)):
+        k += 1
+        same = payload_id(bytes([0x55, k]) + bytes(rng.randrange(256) for _ in range(rng.choice([0, 2, 6]))))
+        t = T.after(rng.choice([200, 1500]))
+        bk.broadcast(t, o, same)
+        pattern = rng.choice(['instant', 'later', 'instant+later', 'traffic'])
+        if pattern in ('instant', 'instant+later'):
+            bk.broadcast(t, o, same)                 # again at the very same instant
+            stats['broadcasts'] += 1
+        if pattern in ('later', 'instant+later'):
+            bk.broadcast(T.after(rng.choice([1, 300, 2500, 20000])), o, same)
+            stats['broadcasts'] += 1
+        if pattern == 'traffic':                     # somebody else broadcasts in between, then the repeat, then once more
+            other = rng.choice([x for x in senders if x != o] or [o])
+            bk.broadcast(T.after(rng.choice([1, 700])), other, payload_id(bytes([0x56, k])))
+            bk.broadcast(T.after(rng.choice([1, 700])), o, same)
+            bk.broadcast(T.after(rng.choice([1, 700])), o, same)
+            stats['broadcasts'] += 3
+        stats['broadcasts'] += 1
+        stats['repeated-broadcasts'] += 1
+    return bk.failures
+
+
+def scen_reregister(rng, stats):
+    """register -> stop (unregister / cable pulled and restored) -> register again with the same BBMD after 0.3..7 s, same or
+    another TTL; a broadcast and a Read-FDT in every second of the following window.  One copy per broadcast at the device,
+    one table entry per address."""
+    nf = rng.randrange(1, 4)
+    layout = {'lans': [(ip_int('10.1.1.0'), 24), (ip_int('10.2.2.0'), 24), (ip_int('10.200.0.0'), 24)], 'style': 'two-hop', 'wf': True,
+              'nodes': [{'lan': 0, 'ip': ip_int('10.1.1.2'), 'kind': 'bbmd', 'bdt': [(ip_int('10.1.1.2'), PORT, M32), (ip_int('10.2.2.2'), PORT, M32)]},
+                        {'lan': 0, 'ip': ip_int('10.1.1.10'), 'kind': 'simple'},
+                        {'lan': 1, 'ip': ip_int('10.2.2.2'), 'kind': 'bbmd', 'bdt': [(ip_int('10.2.2.2'), PORT, M32), (ip_int('10.1.1.2'), PORT, M32)]},
+                        {'lan': 1, 'ip': ip_int('10.2.2.10'), 'kind': 'simple'}]
+                       + [{'lan': 2, 'ip': ip_int('10.200.0.40') + j, 'kind': 'foreign'} for j in range(nf)]
+                       + [{'lan': 0, 'ip': ip_int('10.1.1.90'), 'kind': 'probe'}]}
+    bk = Book(layout)
+    T = Times(rng)
+    nodes = layout['nodes']
+    B = (ip_int('10.1.1.2'), PORT)
+    fors = idx(layout, 'foreign')
+    probe = idx(layout, 'probe')[0]
+    senders = [0, 1, 2, 3] + fors
+    pid = [0x7800]
+
+    def second(gap):
+        pid[0] += 1
+        bk.broadcast(T.after(gap), rng.choice(senders), payload_id(pid[0].to_bytes(2, 'big')))
+        stats['broadcasts'] += 1
+        bk.read_tables(T.after(0), probe, 0)
+    for f in fors:
+        bk.step(T.after(rng.choice([100, 800])), ('register', f, B, rng.choice([5, 10, 30, 60])))
+    second(rng.choice([300, 2000]))
+    for _ in range(rng.randrange(1, 4)):
+        f = rng.choice(fors)
+        how = rng.choice(['unregister', 'unregister', 'cut'])
+        if how == 'unregister':
+            if bk.net.nodes[f]['bip'].bbmdAddress is None:
+                continue
+            bk.step(T.after(rng.choice([200, 900])), ('unregister', f))
+        else:
+            bk.step(T.after(rng.choice([200, 900])), ('link', f, False))
+            bk.step(T.after(rng.choice([100, 1200, 3000])), ('link', f, True))
+        bk.step(T.after(rng.choice([300, 800, 1500, 2500, 4200, 7000])), ('register', f, B, rng.choice([5, 10, 30, 60])))
+        stats['re-registrations'] += 1
+        for _i in range(8):                          # every second of the old entry's remaining life and a little beyond
+            second(rng.choice([400, 700]))
+    return bk.failures
+
+
 def _guard(fn, failures, stats, what, layout=None):
     """run one scenario; a forwarding loop (watchdog) is a failing input of the termination kind"""
     try:
@@ -1507,6 +1592,19 @@ def direct(rng, tier, focus=()):
         layout = gen_layout_fd_inside(rng)
         _guard(lambda: scen_sweep(rng, layout, stats), failures, stats, 'sweep-fd-inside', layout)
         stats['layouts-fd-inside'] += 1
+    for k in range(150 if big else 30):     # identical broadcasts repeated by the same node
+        if late():
+            break
+        layout = gen_layout_fd_inside(rng) if k % 3 == 0 else gen_layout(rng, wf=True, max_sub=4)
+        if layout['style'] == 'mixed':
+            consistent_mixed(layout, rng)
+        _guard(lambda: scen_repeat(rng, layout, stats), failures, stats, 'repeat', layout)
+        stats['repeat-layouts'] += 1
+    for k in range(120 if big else 25):     # unregister / cable pull, then register again within seconds
+        if late():
+            break
+        _guard(lambda: scen_reregister(rng, stats), failures, stats, 're-register')
+        stats['re-register-runs'] += 1
     for k in range(100 if big else 20):     # expiry in every second, several devices on one BBMD
         if late():
             break
